@@ -212,7 +212,12 @@ func (x *Exec) multi(st *State, e ast.Expr, n int) []Val {
 	case *ast.TypeAssertExpr:
 		if n == 2 {
 			x.abstract["type assertion "+exprString(e)] = true
-			return []Val{x.freshVal(st, "typeassert", x.typeOf(e)), {Typ: types.Typ[types.Bool], T: x.c.Fresh("assert_ok", SBool)}}
+			x.expr(st, e.X)
+			at := x.typeOf(e)
+			if tup, ok := at.(*types.Tuple); ok {
+				at = tup.At(0).Type()
+			}
+			return []Val{x.freshVal(st, "typeassert", at), {Typ: types.Typ[types.Bool], T: x.c.Fresh("assert_ok", SBool)}}
 		}
 	case *ast.UnaryExpr:
 		if e.Op == token.ARROW && n == 2 {
